@@ -40,9 +40,11 @@ var c14Acts = []struct {
 	{"probe-middle", []string{"F.I = F.I + 1", "F.Act(%a)", "F.I2 = F.I2 + 1"}},
 	{"probe-last", []string{"F.I = F.I + 1", "F.I2 = F.I2 + 1", "F.Act(%a)"}},
 	{"act-nil-pointer", []string{"F.I = F.I + 1", "F.P.V = 1", "F.I2 = 9"}},
-	{"act-index-range", []string{"F.I = F.I + 1", "F.Arr[7] = 1"}},
-	{"act-kind-mismatch", []string{"F.I = F.I + 1", `F.I8 = "x"`}},
-	{"act-unknown-field", []string{"F.I = F.I + 1", "F.Nope = 1"}},
+	{"act-index-range", []string{"F.I = F.I + 1", "F.Arr[7] = 1", "F.I2 = 8"}},
+	{"act-kind-mismatch", []string{"F.I = F.I + 1", `F.I8 = "x"`, "F.I2 = 7"}},
+	{"act-unknown-field", []string{"F.I = F.I + 1", "F.Nope = 1", "F.I2 = 6"}},
+	{"act-missing-fact", []string{"F.I = F.I + 1", "Z.I = 1", "F.I2 = 5"}},
+	{"act-rhs-fails", []string{"F.I = F.I + 1", "F.I2 = F.P.V + 1", "F.I2 = 4"}},
 }
 
 func c14Rule(i int, ci, ai int) *grl.Rule {
@@ -292,7 +294,7 @@ func C14(rep *ev.Reporter, tier string) {
 			rep.Violation("harness:build-failed:"+p.id, err.Error(), map[string]interface{}{"case": p.id})
 			return
 		}
-		nperm := len(hx.Perms(len(p.rules)))
+		nperm := hx.NPerms(len(p.rules))
 		for _, flag := range []bool{false, true} {
 			for order := 0; order < nperm; order++ {
 				opts := hx.RunOpts{MaxCycle: 4, ReturnErr: flag, DefaultChoice: order}
